@@ -198,8 +198,20 @@ fn clause2(sc: &Scenario, acc: &mut Acc) -> Result<Vec<Violation>, String> {
     let mut storing_backups = 0;
     for step in &sc.steps {
         let from = w.core.log_len();
+        let view_before = if matches!(step, Step::Backup { .. }) { Some(w.view()) } else { None };
         let res = exec_step(&mut w, step, acc, false)?;
         if let StepResult::Backup(b) = &res {
+            if let (Outcome::Done(Ok(s)), Some(vb)) = (&b.outcome, &view_before) {
+                let reusable = crate::format::expected_reusable_files(vb, &w.snap);
+                if s.unmodified_files < reusable {
+                    out.push(Violation::new(
+                        "C14",
+                        "unchanged_files_are_taken_over_from_the_basis",
+                        "stored_again",
+                        format!("{reusable} files are unchanged against the stitched basis with intact blocks, the backup took over only {}", s.unmodified_files),
+                    ));
+                }
+            }
             if let Outcome::Done(Ok(s)) = &b.outcome {
                 if s.deduplicated_blocks > 0 {
                     acc.hit("dedup_hit");
